@@ -1,5 +1,6 @@
 from abc import abstractmethod
 from collections import OrderedDict
+from math import ceil
 from typing import Any
 from typing import Dict
 from typing import Iterator
@@ -19,6 +20,20 @@ from pfhedge._utils.typing import TensorOrScalar
 from ..base import BaseInstrument
 
 T = TypeVar("T", bound="BasePrimary")
+
+
+def n_time_steps(time_horizon: float, dt: float) -> int:
+    """Returns the number of time points ``ceil(time_horizon / dt) + 1`` of a simulation.
+
+    A quotient that is an integer up to floating point rounding counts as that integer:
+    ``(29 / 365) / (1 / 365)`` evaluates to ``29.000000000000004``,
+    which must give 30 points rather than 31.
+    """
+    ratio = float(time_horizon) / float(dt)
+    nearest = round(ratio)
+    if abs(ratio - nearest) <= 1e-10 * max(abs(nearest), 1):
+        return int(nearest) + 1
+    return ceil(ratio) + 1
 
 
 class BasePrimary(BaseInstrument):
